@@ -35,6 +35,17 @@ fn run(args: &Args, mon: &mut vcommon::mon::Monitor) {
         "C15" => c15::run(mon),
         "C16" => c16::run(mon),
         "C17" => c17::run(mon),
+        // C18's integer clause ("integer overflow or division by zero [panic] exactly where the primitive operation panics"):
+        // the integer lane-lift monitor of C13, keeping only its panic-equivalence verdicts (value mismatches belong to C13)
+        "C18" => {
+            c13::run(mon);
+            mon.violations.retain(|v| v.ty == "Canary" || v.kind == "unexpected_panic" || v.kind == "missing_panic");
+            let kept: std::collections::HashMap<String, u64> = mon.violations.iter().fold(Default::default(), |mut m, v| { *m.entry(format!("{}::{}", v.ty, v.op)).or_insert(0) += 1; m });
+            for (k, st) in mon.ops.iter_mut() {
+                st.violations = kept.get(k).copied().unwrap_or(0);
+            }
+            mon.notes.push("integer panic equivalence only: kinds unexpected_panic / missing_panic of the C13 monitor".into());
+        }
         p => {
             eprintln!("e_lanes: unknown property {}", p);
             std::process::exit(2);
